@@ -18,6 +18,34 @@ var vfC01 struct {
 	combineOK   bool
 }
 
+// The library offers the interpolation in two steps as well (coefficients for an ORDERED list of
+// indices, then the combination of shares in that order): the same recorder sees through it, so a
+// coefficient object that is reused for shares in another order is caught.
+type vfLagrangeRec struct {
+	lc      *shcrypto.LagrangeCoeffs
+	indices []int
+}
+
+var vfLagrange []vfLagrangeRec
+
+//verif:stub github.com/shutter-network/shutter/shlib/shcrypto.NewLagrangeCoeffs
+func vfStubNewLagrange(indices []int) *shcrypto.LagrangeCoeffs {
+	lc := &shcrypto.LagrangeCoeffs{}
+	vfLagrange = append(vfLagrange, vfLagrangeRec{lc: lc, indices: append([]int(nil), indices...)})
+	return lc
+}
+
+//verif:stub (*github.com/shutter-network/shutter/shlib/shcrypto.LagrangeCoeffs).ComputeEpochSecretKey
+func vfStubLagrangeCombine(lc *shcrypto.LagrangeCoeffs, shares []*shcrypto.EpochSecretKeyShare) (*shcrypto.EpochSecretKey, error) {
+	for _, r := range vfLagrange {
+		if r.lc == lc {
+			return vfStubCombine(r.indices, shares, uint64(len(r.indices)))
+		}
+	}
+	vfAssert(false, "coefficients-come-from-NewLagrangeCoeffs")
+	return nil, vfErr("combine")
+}
+
 //verif:stub github.com/shutter-network/shutter/shlib/shcrypto.ComputeEpochSecretKey
 func vfStubCombine(indices []int, shares []*shcrypto.EpochSecretKeyShare, threshold uint64) (*shcrypto.EpochSecretKey, error) {
 	vfC01.combines++
